@@ -133,7 +133,8 @@ pub fn check(scn: &Scenario) -> Result<CaseInfo, String> {
                 .class_if(scn.partial, "partial")
                 .class_if(!scn.partial, "strict")
                 .class(super::verdict_class(&cmp.model_verdict))
-                .class_if(scn.clones > 0, "uses-clones"))
+                .class_if(scn.clones > 0, "uses-clones")
+                .class_if(scn.history.iter().any(|c| c.unwinding), "has-call-by-a-destructor-during-unwinding"))
         }
     }
 }
